@@ -24,9 +24,8 @@ EXPLANATION = (
     "edge absent; inside any multi-block file). NOT modelled, hence only sampled here: the stored width G.graph['w'] "
     "(stDiGraph.get_width -> networkx condensation + network simplex) is compared per instance with a brute-force maximum "
     "antichain; the value of int()/float() outside the grammar [+-]?digits[.digits]? (model answers Unmodelled); "
-    "file decoding / readlines(). The n == 0 early return of the code skips every validation: the unconditional rejection "
-    "statement is refuted in Coq (C20_zero_count_skips_validation_refuted) and the same witnesses are replayed here as "
-    "known finding read_graph:n==0:no-validation.")
+    "file decoding / readlines(). Blocks that declare 0 vertices are validated by the code since /repo fc0735f (no constraints, no "
+    "non-blank non-'#' line after the count); the model has the same branch and the rejection theorems cover zero-count blocks.")
 ASSUMPTIONS = [
     "lines handed to the model are exactly what f.readlines() returned (the harness writes UTF-8 files without '\\r' and compares on the same list of lines)",
     "float(token) is the correctly rounded double of the decimal the model returns (compared as float(Fraction(mantissa, 10**scale)) == weight)",
@@ -35,7 +34,6 @@ ASSUMPTIONS = [
 ]
 TRUSTED = ["model: coq/theories/Parser.v; proofs ParserProofs1-4.v; driver coq/driver/h_parser.ml (code-point lists in, integers out)"]
 
-FINDING_ZERO = "read_graph:n==0:no-validation"
 
 # ----------------------------------------------------------------------------- implementation side
 def _gu():
@@ -58,7 +56,8 @@ def impl_graph(G):
 def classify_msg(msg):
     for pat, kind in (("missing vertex-count", "MissingCount"), ("invalid literal for int", "BadCount"), ("Exceeds the limit", "BadCount"),
                       ("Invalid edge format", "BadEdge"), ("could not convert string to float", "BadWeight"),
-                      ("Constraint edge", "MissingConstraintEdge"), ("at least one source", "NoSource"), ("at least one sink", "NoSink")):
+                      ("Constraint edge", "MissingConstraintEdge"), ("cannot have subpath constraints", "ZeroHasConstraints"),
+                      ("cannot list edges", "ZeroHasEdges"), ("at least one source", "NoSource"), ("at least one sink", "NoSink")):
         if pat in msg:
             return kind
     return "?"
@@ -601,9 +600,11 @@ def run(ctx):
             cs = corruptions(rng, lines, [spec])
             for kind, must, inzero, new in rng.sample(cs, min(6, len(cs))):
                 cases.append(("single", i, kind, "read_graph", new, None, must, inzero))
-        # finding witnesses (n == 0 early return): always replayed
-        for w in (["#S a b\n", "0\n"], ["# g\n", "0\n", "a b\n"], ["# g\n", "0\n", "a b notanumber\n"]):
-            cases.append(("witness", 0, "zero-block-witness", "read_graphs", w, None, True, True))
+        # zero-vertex blocks with a constraint / edge lines (accepted before fc0735f): regression cases, always run
+        for w in (["#S a b\n", "0\n"], ["# g\n", "0\n", "a b\n"], ["# g\n", "0\n", "a b notanumber\n"], ["# g\n", "0\n", "\n", "a b 1.0\n"],
+                  ["# g\n", "#S a\n", "#S a b\n", " 00 \n"], ["# g\n", "2\n", "a b 1\n", "# h\n", "-0\n", "a b\n", "# k\n", "1\n", "x y 2\n"]):
+            cases.append(("regress", 0, "zero-block-corrupt", "read_graphs", w, None, True, True))
+            cases.append(("regress", 0, "zero-block-corrupt", "read_graph", [l for l in w if l not in ("# h\n", "# k\n")][:4], None, True, True))
         reqs = [("readgraphs " if c[3] == "read_graphs" else "readgraph ") + common.toks(enc_lines(c[4])) for c in cases]
         outs = ctx.model.run(reqs)
         for (stream, i, kind, fn, lines, specs, must, inzero), out in zip(cases, outs):
@@ -633,8 +634,7 @@ def run(ctx):
                 if ires[0] != "ValueError":
                     failed = True
                     what = (f"{fn} accepted a corrupt file ({kind})" if ires[0] == "OK" else f"{fn} raised {ires[0]} instead of ValueError ({kind})")
-                    key = FINDING_ZERO if (inzero and ires[0] == "OK" and mres[0] == "OK") else None
-                    ctx.report(what, replay, key=key, concrete=True)
+                    ctx.report(what, replay, concrete=True)
             # ---- (E3) model vs implementation
             d = compare_model(mres, ires)
             if d == "skip":
